@@ -321,10 +321,10 @@ def gen(cs, **opts):
                 prices[:k, i] = np.nan
                 late.append(tk)
     if opts.get("jumps"):
-        for _ in range(rng.randint(1, 3)):
+        for _ in range(rng.randint(1, 3) if opts["jumps"] == 1 else rng.randint(2, 5)):
             d0 = rng.randint(2, nd - 1)
             i = rng.randrange(ntk)
-            prices[d0:, i] *= rng.choice([0.3, 0.5, 1.6, 2.2, 0.15])
+            prices[d0:, i] *= rng.choice([0.3, 0.5, 1.6, 2.2, 0.15] if opts["jumps"] == 1 else [0.1, 0.2, 0.3, 2.5, 3.5, 0.5, 1.8])
     start = opts.get("start") or rng.choice(["2019-11-15", "2020-03-02", "2018-12-10", "2021-06-21"])
     spec = {"cs": cs, "nd": nd, "tickers": tickers, "start": start, "freq": "B", "prices": prices.tolist(), "extras": {}, "late": late}
     spec["capital"] = float(rng.choice(opts.get("capitals", [1e6, 1e5, 1e4, 3.3e6])))
